@@ -10,6 +10,7 @@ import (
 
 	"github.com/tetratelabs/wazero/api"
 	experimentalsys "github.com/tetratelabs/wazero/experimental/sys"
+	"github.com/tetratelabs/wazero/internal/sysfs"
 	"github.com/tetratelabs/wazero/sys"
 )
 
@@ -22,6 +23,9 @@ var (
 )
 
 func verif_eq[T any](a, b T) bool { return true }
+
+func isReadFSMount(f experimentalsys.FS) bool  { _, ok := f.(*sysfs.ReadFS); return ok }
+func isAdaptFSMount(f experimentalsys.FS) bool { _, ok := f.(*sysfs.AdaptFS); return ok }
 
 func mapHasSI(m map[string]int, k string) bool { _, ok := m[k]; return ok }
 
@@ -203,10 +207,12 @@ func fcInv(c *fsConfig) bool {
 //@   ensures[others-copied] verif_eq(r0.(*moduleConfig).name, c.name) && verif_eq(r0.(*moduleConfig).nameSet, c.nameSet) && verif_eq(r0.(*moduleConfig).startFunctions, c.startFunctions) && verif_eq(r0.(*moduleConfig).stdin, c.stdin) && verif_eq(r0.(*moduleConfig).stdout, c.stdout) && verif_eq(r0.(*moduleConfig).stderr, c.stderr) && verif_eq(r0.(*moduleConfig).randSource, c.randSource) && verif_eq(r0.(*moduleConfig).walltime, c.walltime) && verif_eq(r0.(*moduleConfig).walltimeResolution, c.walltimeResolution) && verif_eq(r0.(*moduleConfig).nanotime, c.nanotime) && verif_eq(r0.(*moduleConfig).nanotimeResolution, c.nanotimeResolution) && verif_eq(r0.(*moduleConfig).nanosleep, c.nanosleep) && verif_eq(r0.(*moduleConfig).osyield, c.osyield) && verif_eq(r0.(*moduleConfig).args, c.args) && verif_eq(r0.(*moduleConfig).fsConfig, c.fsConfig) && verif_eq(r0.(*moduleConfig).sockConfig, c.sockConfig)
 //@   modifies nothing
 
+//@ prop C19 C17
 //@ func (c *fsConfig) clone() *fsConfig
 //@   ensures[fresh] verif_fresh(r0) && verif_fresh_slice(r0.fs) && verif_fresh_slice(r0.guestPaths) && verif_fresh_map(r0.guestPathToFS)
 //@   ensures[lens] len(r0.fs) == len(c.fs) && len(r0.guestPaths) == len(c.guestPaths) && r0.guestPathToFS != nil
 //@   ensures[keys-subset] forall k string :: mapHasSI(r0.guestPathToFS, k) ==> mapHasSI(c.guestPathToFS, k) && r0.guestPathToFS[k] == c.guestPathToFS[k]
+//@   ensures[fs-copied] forall i int :: 0 <= i && i < len(c.fs) ==> verif_eq(r0.fs[i], c.fs[i])
 //@   modifies nothing
 //@   loop 0 (ret fsConfig)
 //@     invariant forall k string :: mapHasSI(ret.guestPathToFS, k) ==> mapHasSI(c.guestPathToFS, k) && ret.guestPathToFS[k] == c.guestPathToFS[k]
@@ -214,7 +220,21 @@ func fcInv(c *fsConfig) bool {
 //@ func (c *fsConfig) WithSysFSMount(fs experimentalsys.FS, guestPath string) FSConfig
 //@   requires fcInv(c)
 //@   ensures[fresh-or-same] verif_fresh(r0.(*fsConfig)) || r0.(*fsConfig) == c
+//@   ensures[mounts] forall i int :: 0 <= i && i < len(r0.(*fsConfig).fs) ==> verif_eq(r0.(*fsConfig).fs[i], fs) || (i < len(c.fs) && verif_eq(r0.(*fsConfig).fs[i], c.fs[i]))
 //@   modifies nothing
+
+// A read-only directory mount is served by the read-only wrapper, a Go fs.FS mount by the adapter
+// (the reduction of C17: the guest reaches a mount only through the sys.FS configured for it).
+//@ func (c *fsConfig) WithReadOnlyDirMount(dir, guestPath string) FSConfig
+//@   requires fcInv(c)
+//@   ensures[served-by-ReadFS] forall i int :: 0 <= i && i < len(r0.(*fsConfig).fs) ==> isReadFSMount(r0.(*fsConfig).fs[i]) || (i < len(c.fs) && verif_eq(r0.(*fsConfig).fs[i], c.fs[i]))
+//@   modifies nothing
+
+//@ func (c *fsConfig) WithFSMount(fs fs.FS, guestPath string) FSConfig
+//@   requires fcInv(c)
+//@   ensures[served-by-AdaptFS] forall i int :: 0 <= i && i < len(r0.(*fsConfig).fs) ==> isAdaptFSMount(r0.(*fsConfig).fs[i]) || r0.(*fsConfig).fs[i] == nil || (i < len(c.fs) && verif_eq(r0.(*fsConfig).fs[i], c.fs[i]))
+//@   modifies nothing
+//@ prop C19
 
 //@ func (c *fsConfig) preopens() ([]experimentalsys.FS, []string)
 //@   ensures[fresh] verif_fresh_slice(r0) && verif_fresh_slice(r1)
